@@ -1,12 +1,13 @@
 #!/bin/bash
-# Re-run every kept seeded change (/verif/seeded/*/patch.diff) against the quick check of the property
+# Re-run every kept seeded change ($V/seeded/*/patch.diff) against the quick check of the property
+V="$(cd "$(dirname "$0")/.." && pwd)"
 # it breaks (meta.json: property). Expects exit 1 each time. /repo is restored after each.
-cd /verif
+cd "$V"
 if [ -n "$(git -C /repo status --porcelain --untracked-files=no)" ]; then echo "/repo is dirty"; exit 2; fi
 for d in seeded/${1:-}*/; do
   id=$(basename $d)
   p=$(python3 -c "import json;print(json.load(open('$d/meta.json'))['property'])")
-  if ! git -C /repo apply /verif/$d/patch.diff 2>/dev/null; then echo "STALE  $id"; continue; fi
+  if ! git -C /repo apply $V/$d/patch.diff 2>/dev/null; then echo "STALE  $id"; continue; fi
   ./check $p --tier quick > .build/seedall-$id.log 2>&1; code=$?
   rule=$(grep -m1 "rule=" .build/seedall-$id.log | sed 's/^ *//' | cut -c1-130)
   if [ $code -eq 1 ]; then echo "CAUGHT $id by $p  $rule"; else echo "MISSED $id by $p (exit $code)"; fi
